@@ -554,6 +554,12 @@ def run(ctx):
     rng.random()           # decorrelate from C03 at the same seed
     quick = ctx.tier == "quick"
 
+    try:
+        from harness import c03_pipeline
+        from harness import common as _common
+        ctx.cover(optimize_ir_restores_declared_output_types=c03_pipeline.parse(_common.REPO)["restores_output_types"])
+    except Exception as e:      # C03 reports an unreadable pipeline as a broken translator
+        ctx.cover(optimize_ir_restores_declared_output_types=f"unreadable: {e}"[:120])
     # which of the two worlds of Props/C04.v is the current source in?
     if info is not None:
         ctx.cover(source_guards={"_get_numpy_value ignores graph inputs": info["guard"], "_clear_unused_initializers keeps graph inputs": info["clear_keeps"]})
